@@ -25,6 +25,13 @@ def as_cols(p):
     return np.asarray(p).reshape(len(p), -1)
 
 
+def prepare(ctx):
+    """Translator tie (see gen_tie.py): the statements of the BaseART methods are regenerated from the source and the
+    theorems about the generated definitions are re-checked"""
+    from .gen_tie import gen_prepare
+    gen_prepare(ctx, ['Control.step_pred_spec', 'Control.predict_spec'], "BaseART.step_pred / predict (translated statements): row-wise arg-max, estimator returned unchanged")
+
+
 def run(ctx):
     cov = ctx.cov
     N = ctx.scale(380, 8000)
